@@ -133,6 +133,7 @@ func c06ShrexCase(t *rapid.T) {
 
 	hdr := kit.MakeHeader(sq, height, archival)
 	res, hung := kit.Run(ctl, req, g, hdr, ctl.End)
+	aliveAtReturn := !ctl.Ended()
 	ctl.End()
 	hist := net.History()
 	what := fmt.Sprintf("request %s at height %d of square {%s}; peer scripts %s; served %v; ctx(far-deadline=%v, ends-with=%v, barrier=%v) archival=%v blacklisting=%v",
@@ -150,6 +151,14 @@ func c06ShrexCase(t *rapid.T) {
 	// honestly and the answer was consumed entirely while the context was alive, the call succeeds
 	if st.AllServed && res.Err != nil {
 		t.Fatalf("C06 shrex getter failed (%v) although an honest peer answered every request in full before the context ended: expected success\n  %s",
+			res.Err, what)
+	}
+	// (2b) the getter keeps asking peers until it succeeds or its context ends (the documented
+	// contract of its retry loop): giving up with an error while the context is alive would let
+	// refusals of some peers ("not found", resets, garbage) fail a request that a later honest
+	// peer of the pool could still serve
+	if aliveAtReturn && res.Err != nil && !hung {
+		t.Fatalf("C06 shrex getter gave up with an error (%v) while its context was still alive and peers were left to ask: expected it to keep trying until success or the end of the context\n  %s",
 			res.Err, what)
 	}
 	// (3) NOT_FOUND from every peer that was asked is reported as not found
